@@ -230,6 +230,11 @@ class FakeHttpd(FakeHttpServer):
 
 
 # ----------------------------------------------------------------------------- URL scraping
+FOREIGN_IP = '192.0.2.10:6000'          # netlocs that only a peer puts into a message (TEST-NET-1 / example.org)
+FOREIGN_NAME = 'proxy.example.org:8080'
+MARKERS = (IP, ALT, '192.0.2.10', 'proxy.example.org')
+
+
 def _scheme_host(url):
     """('http'|'https'|other, 'ip'|'alt'|'other', well_formed) of a transport address"""
     url = (url or '').strip()
@@ -247,12 +252,12 @@ def scrape(body: bytes, sender: str, out: list):
     except etree.XMLSyntaxError:
         return
 
-    def add(kind, text):
+    def add(kind, text, any_host=True):
         if text is None:
             return
         for tok in text.split():
             s, h, wf = _scheme_host(tok)
-            if s in ('http', 'https') and h != 'other':
+            if s in ('http', 'https') and (any_host or h != 'other' or any(m in tok for m in MARKERS)):
                 out.append({'kind': kind, 'by': sender, 'scheme': s, 'host': h, 'wf': wf, 'url': tok})
 
     seen = set()
@@ -270,15 +275,19 @@ def scrape(body: bytes, sender: str, out: list):
     take('//dpws:Hosted/wsa:EndpointReference/wsa:Address', 'hosted')
     take('//wsd:XAddrs', 'probe_xaddr')
     take('//mex:Location', 'wsdl')
-    # catch-all: any other text or attribute that names one of our transport addresses
+    # opaque data of the peer that WS-Addressing obliges the sender to echo (reference parameters) is not an address
+    # advertised by the sender
+    for el in root.xpath('/s12:Envelope/s12:Header/*[@wsa:IsReferenceParameter]', namespaces=NS):
+        seen.update(el.iter())
+    # catch-all: any other text or attribute that names a transport address of one of the parties or of the peer
     for el in root.iter():
         if not isinstance(el.tag, str) or el in seen:
             continue
-        if el.text and (IP in el.text or ALT in el.text):
-            add('other:' + etree.QName(el).localname, el.text)
+        if el.text and any(m in el.text for m in MARKERS):
+            add('other:' + etree.QName(el).localname, el.text, any_host=False)
         for k, v in el.attrib.items():
-            if IP in v or ALT in v:
-                add('other:@' + etree.QName(k).localname, v)
+            if any(m in v for m in MARKERS):
+                add('other:@' + etree.QName(k).localname, v, any_host=False)
 
 
 def http_body(raw: bytes) -> bytes:
@@ -419,6 +428,25 @@ class Run:
         c = self.case
         cc = self.consumerimpl.default_components_factory()
         cc.soap_client_class = self.client_class(ConsClient)
+        # the consumer's subscription manager is a thread that polls once a second and renews what is about to expire.
+        # The scenario sends Renew itself; the polling thread is parked (woken for stop_all / restart() it would race
+        # with the Subscribe requests of the following start: Renew on a half-initialised subscription)
+        base_mgr = cc.subscription_manager_class
+
+        class ParkedSubscriptionManager(base_mgr):
+            def __init__(self, *a, **k):
+                super().__init__(*a, **k)
+                self._parked = threading.Event()
+
+            def run(self):
+                self._run = True
+                self._parked.wait()
+
+            def stop(self):
+                self._parked.set()
+                super().stop()
+
+        cc.subscription_manager_class = ParkedSubscriptionManager
         cc.action_dispatcher_class = RequestDispatcher
         x_addr = self.provider.get_xaddrs()[0]
         if c['x'] == 'flip':
@@ -440,11 +468,16 @@ class Run:
         log = self.net.log
         for ex in log[self.scraped_upto:]:
             sender = self.client_role(ex.client)
+            if sender == 'F':           # hand-built request of the foreign peer: its content is input, not judged
+                scrape(http_body(ex.response), 'P', out)
+                continue
             scrape(http_body(ex.request), sender, out)
             scrape(http_body(ex.response), 'P' if sender == 'C' else 'C', out)
         self.scraped_upto = len(log)
 
     def client_role(self, name):
+        if name == 'foreign':
+            return 'F'
         for ent in list(self.created):
             if ent['name'] == name:
                 return ent['role']
@@ -505,7 +538,6 @@ class Run:
     def do_start(self, again):
         """start_all on a stopped consumer (again=False) or restart() (again=True); records the outcome"""
         cons = self.consumer
-        self.ctime.wake.set()           # restart() stops the subscription manager thread first: do not wait for it
         try:
             if again:
                 cons.restart()
@@ -517,8 +549,6 @@ class Run:
             self.running = False
             self.tr['starts'].append(exc_name(ex))
             self.tr.setdefault('start_msgs', []).append(str(ex)[:200])
-        finally:
-            self.ctime.wake.clear()
         return self.tr['starts'][-1]
 
     def subscriptions(self):
@@ -543,12 +573,10 @@ class Run:
         if not self.running:
             return 'stopped'            # a stopped consumer is not used
         if kind == 'stop':
-            self.ctime.wake.set()
             try:
                 cons.stop_all(unsubscribe=True)
             finally:
                 self.running = False
-                self.ctime.wake.clear()
             return 'ok'
         if kind == 'probe':
             r = cons.send_probe()
@@ -626,6 +654,166 @@ class Run:
             acts[key] = acts.get(key, 0) + 1
         tr['actions'] = acts
         return tr
+
+
+# ----------------------------------------------------------------------------- foreign peer
+class ForeignSink(FakeHttpServer):
+    """event sink of a peer that is not this library: accepts every request with 202"""
+
+    def __init__(self, net, tls):
+        super().__init__(net)
+        self.tls = tls
+        self.received = 0
+
+    def handle_raw(self, raw, peer):
+        self.received += 1
+        return b'HTTP/1.1 202 Accepted\r\nContent-Length: 0\r\n\r\n'
+
+
+S12 = 'http://www.w3.org/2003/05/soap-envelope'
+WSA = 'http://www.w3.org/2005/08/addressing'
+WSE = 'http://schemas.xmlsoap.org/ws/2004/08/eventing'
+ACT_METRIC = 'http://standards.ieee.org/downloads/11073/11073-20701-2018/StateEventService/EpisodicMetricReport'
+
+
+class ForeignRun(Run):
+    """a TLS or plaintext provider talked to by a hand-built client (no SdcConsumer): every peer-supplied
+    address-like field of every request is taken from the case"""
+
+    def addr(self, spec, service_path):
+        """spec = None | 'anonymous' | 'urn' | 'na' | [scheme, netloc kind, path kind]"""
+        if spec is None:
+            return None
+        if spec == 'anonymous':
+            return WSA + '/anonymous'
+        if spec == 'urn':
+            return 'urn:uuid:00000000-0000-0000-0000-0000000000aa'
+        if spec == 'na':
+            return 'n/a'
+        scheme, nl, pk = spec
+        port = self.provider._http_server.server_port
+        netloc = {'self': f'{IP}:{port}', 'alt': f'{ALT}:{port}', 'other_ip': FOREIGN_IP, 'other_name': FOREIGN_NAME,
+                  'sink': self.sink_netloc}[nl]
+        path = {'service': service_path, 'other': '/somewhere/else', 'slash': service_path + '/'}[pk]
+        return f'{scheme}://{netloc}{path}'
+
+    def epr(self, tag, spec, service_path, refparam=None):
+        a = self.addr(spec, service_path)
+        if a is None:
+            return ''
+        rp = ''
+        if refparam:
+            rp = (f'<wsa:ReferenceParameters><f:Ident xmlns:f="urn:foreign-peer">{refparam}</f:Ident>'
+                  '</wsa:ReferenceParameters>')
+        return f'<{tag}><wsa:Address>{a}</wsa:Address>{rp}</{tag}>'
+
+    def post(self, service_path, action, body, f):
+        """one hand-built request; f = peer-chosen fields of this request"""
+        self.msg_no += 1
+        to = self.addr(f.get('to'), service_path)
+        hdr = ('' if to is None else f'<wsa:To>{to}</wsa:To>') + f'<wsa:Action>{action}</wsa:Action>' \
+            f'<wsa:MessageID>urn:uuid:{uuid.UUID(int=self.msg_no)}</wsa:MessageID>' \
+            + self.epr('wsa:ReplyTo', f.get('reply_to'), service_path) + self.epr('wsa:From', f.get('from'), service_path)
+        xml = (f'<?xml version="1.0" encoding="UTF-8"?><s12:Envelope xmlns:s12="{S12}" xmlns:wsa="{WSA}" '
+               f'xmlns:wse="{WSE}"><s12:Header>{hdr}</s12:Header><s12:Body>{body}</s12:Body></s12:Envelope>').encode()
+        port = self.provider._http_server.server_port
+        host = {'self': f'{IP}:{port}', 'alt': f'{ALT}:{port}', 'other_ip': FOREIGN_IP,
+                'other_name': FOREIGN_NAME}[f.get('host', 'self')]
+        target = {'plain': service_path, 'slash': service_path + '/',
+                  'absolute_http': f'http://{host}{service_path}',
+                  'absolute_https': f'https://{host}{service_path}'}[f.get('path', 'plain')]
+        raw = (f'POST {target} HTTP/1.1\r\nHost: {host}\r\nContent-type: application/soap+xml; charset=utf-8\r\n'
+               f'Accept-Encoding: identity\r\nContent-Length: {len(xml)}\r\n\r\n').encode() + xml
+        srv = self.provider._http_server if self.p_shared is not None else self.provider._http_server.httpd
+        ex = world.Exchange(len(self.net.log), 'foreign', srv.netloc, 'POST', target, raw, xml)
+        self.net.log.append(ex)
+        ex.response = srv.handle_raw(raw, (IP, 40000))      # the peer speaks whatever the port speaks
+        try:
+            ex.status = int(ex.response.split(b' ', 2)[1])
+        except Exception:  # noqa: BLE001
+            ex.status = None
+        body = http_body(ex.response)
+        try:
+            root = etree.fromstring(body) if body else None
+        except etree.XMLSyntaxError:
+            return ex.status, None
+        if root is not None and root.find('s12:Body/s12:Fault', namespaces=NS) is not None:
+            return f'fault({ex.status})', root          # answered, but the request was not carried out
+        return ex.status, root
+
+    def run(self):
+        tr = self.tr
+        c = self.case
+        self.msg_no = 0
+        try:
+            self.start_provider()
+            tr['p_start'] = 'ok'
+        except Exception as ex:  # noqa: BLE001
+            tr['p_start'] = exc_name(ex)
+            tr['error'] = traceback.format_exc()[-1500:]
+            return self.finish()
+        sink = ForeignSink(self.net, c['sink_tls'])
+        self.sink_netloc = f"{ALT if c['sink_alt'] else IP}:{sink.server_port}"
+        prefix = '/' + self.provider.path_prefix
+        F = c['fields']
+        st = tr['statuses'] = {}
+        st['get'] = self.post(prefix, 'http://schemas.xmlsoap.org/ws/2004/09/transfer/Get', '', F['get'])[0]
+        st['hosted_md'] = self.post(prefix + '/StateEvent', 'http://schemas.xmlsoap.org/ws/2004/09/mex/GetMetadata/Request',
+                                    '<m:GetMetadata xmlns:m="http://schemas.xmlsoap.org/ws/2004/09/mex"/>',
+                                    F['hosted_md'])[0]
+        st['probe'] = self.post(prefix, 'http://docs.oasis-open.org/ws-dd/ns/discovery/2009/01/Probe',
+                                '<d:Probe xmlns:d="http://docs.oasis-open.org/ws-dd/ns/discovery/2009/01"><d:Types/></d:Probe>',
+                                F['probe'])[0]
+        sub = F['subscribe']
+        body = ('<wse:Subscribe>' + self.epr('wse:EndTo', sub.get('end_to'), '/sink/end')
+                + '<wse:Delivery Mode="http://schemas.xmlsoap.org/ws/2004/08/eventing/DeliveryModes/Push">'
+                + self.epr('wse:NotifyTo', sub['notify_to'], '/sink/notify',
+                           self.addr(sub.get('refparam'), '/sink/ref'))
+                + '</wse:Delivery><wse:Expires>PT1M</wse:Expires>'
+                  f'<wse:Filter Dialect="http://docs.oasis-open.org/ws-dd/ns/dpws/2009/01/Action">{ACT_METRIC}</wse:Filter>'
+                  '</wse:Subscribe>')
+        status, root = self.post(prefix + '/StateEvent', WSE + '/Subscribe', body, sub)
+        st['subscribe'] = status
+        mgr = None if root is None else root.findtext('.//wse:SubscriptionManager/wsa:Address', namespaces=NS)
+        tr['subscribed'] = mgr is not None
+        if mgr is not None:
+            # the peer keeps using the path it was told, on the connection it has
+            mgr_path = urlparse(mgr).path or prefix + '/StateEvent'
+            st['getstatus'] = self.post(mgr_path, WSE + '/GetStatus', '<wse:GetStatus/>', F['getstatus'])[0]
+            st['renew'] = self.post(mgr_path, WSE + '/Renew', '<wse:Renew><wse:Expires>PT1M</wse:Expires></wse:Renew>',
+                                    F['renew'])[0]
+            try:
+                with self.provider.mdib.metric_state_transaction() as mtr:
+                    state = mtr.get_state(self.metric_handle)
+                    if state.MetricValue is None:
+                        state.mk_metric_value()
+                    state.MetricValue.Value = Decimal(7)
+                st['notify'] = 'ok'
+            except Exception as ex:  # noqa: BLE001
+                st['notify'] = exc_name(ex)
+            if c['end'] == 'unsubscribe':
+                st['unsubscribe'] = self.post(mgr_path, WSE + '/Unsubscribe', '<wse:Unsubscribe/>', F['unsubscribe'])[0]
+        tr['sink_received'] = sink.received
+        self.ptime.wake.set()
+        try:
+            self.provider.stop_all(send_subscription_end=True)
+            self.phase('shutdown', 'ok')
+        except Exception as ex:  # noqa: BLE001
+            self.phase('shutdown', exc_name(ex))
+        tr['sink_received_total'] = sink.received
+        return self.finish()
+
+
+def run_foreign(req):
+    logging.getLogger('sdc').setLevel(logging.CRITICAL)
+    logging.disable(logging.CRITICAL)
+    traces = []
+    for case in req['cases']:
+        try:
+            traces.append(ForeignRun(case).run())
+        except Exception:  # noqa: BLE001
+            traces.append({'crash': traceback.format_exc()[-2000:]})
+    return {'traces': traces}
 
 
 def run_world(req):
@@ -711,7 +899,7 @@ def run_clientcls(req):
 
 def main():
     req = json.load(sys.stdin)
-    out = {'world': run_world, 'ctxflags': run_ctxflags, 'clientcls': run_clientcls}[req['stream']](req)
+    out = {'world': run_world, 'foreign': run_foreign, 'ctxflags': run_ctxflags, 'clientcls': run_clientcls}[req['stream']](req)
     print(json.dumps(out, default=str))
 
 
